@@ -3,6 +3,6 @@ From Coq Require Import List Arith Bool NArith.
 From Muscle Require Import Gen.Consts Conc.ThreadQ Conc.ThreadQProofs.
 Import ListNotations.
 
-Theorem c11_init_reachable : forall absorb_n react m, reachable absorb_n react m (sys0 m).
+Theorem c11_init_reachable : forall absorb_n react m e, reachable absorb_n react m e (sys0 m e).
 Proof. exact init_reachable. Qed.
 Print Assumptions c11_init_reachable.
